@@ -106,15 +106,16 @@ structure PkgView where
   outcome : String
   /-- an abort of this package is justified: the bytes that the cache directory / the repository offer for the
   handle are not authentic (`Spec.pkgVerdict`, memo-blind), or the property does not prescribe the verdict
-  (`Spec.dupNames`; the URL was already expanded in this process, whose memo may repeat an abort) -/
+  (`Spec.dupNames`; the URL was already expanded in this process, whose memo may repeat an abort; the same data
+  section was already laid out by another handle of this build) -/
   mayAbort : Bool
   /-- Impl answered this handle from a memo entry that was made for ANOTHER checksum string -/
   staleMemo : Bool
 
 /-- per package of one op: Impl's outcome and what the property says about it, threading the state the way Impl does -/
-def views (L : Lib) (o : Op) : State → List PkgReq → List PkgView
-  | _, [] => []
-  | s, p :: ps =>
+def views (L : Lib) (o : Op) : List (List Entry) → State → List PkgReq → List PkgView
+  | _, _, [] => []
+  | prev, s, p :: ps =>
     let cache := if o.useCache then some (s.store.cacheOf p.key) else none
     let v := Spec.pkgVerdict L o.kind p cache
     let m := if o.useCache then lookup p.key s.memo else none
@@ -125,12 +126,17 @@ def views (L : Lib) (o : Op) : State → List PkgReq → List PkgView
       | some me => memoAnswers Impl.memoChecks me p && !(decide (me.raw = p.raw) && decide (me.want = p.expected))
       | none => false
     let dup := o.kind = .build && Spec.dupNames L p cache
-    let r := runPkg Impl.cfg L o.kind o.useCache s p
+    let r := runPkg Impl.cfg L o.kind o.useCache prev s p
     let outcome := match r.1.ok, r.1.exp with
       | true, some e => Spec.expVerdict L o.kind p.expected e
       | _, _ => "-"
-    { req := p, out := r.1, outcome := outcome, mayAbort := (v != "ok" && v != "emptyhash") || sticky || dup,
-      staleMemo := stale } :: views L o r.2 ps
+    -- the same data section laid out a second time in one build (the same package under two handles) is a file
+    -- conflict matter (C07), not an authentication one
+    let again := o.kind = .build && match r.1.exp with
+      | some e => prev.contains e.files
+      | none => false
+    { req := p, out := r.1, outcome := outcome, mayAbort := (v != "ok" && v != "emptyhash") || sticky || dup || again,
+      staleMemo := stale } :: views L o (laidOut prev r.1) r.2 ps
 
 def classOfVerdict : String → String
   | "control" => "F05a"
@@ -175,7 +181,7 @@ def handle (args : List String) : Option String :=
     | (s, some o) =>
       let (outs, s') := runOp Impl.cfg L s o
       let ok := opOk outs
-      let vs := views L o (s.enter o) o.pkgs
+      let vs := views L o [] (s.enter o) o.pkgs
       let anyStale := vs.any (·.staleMemo)
       -- (two packages may lay out the same path with the same bytes — an empty datahash lets a package carry another
       -- one's data section, F05c — the image then has it once)
